@@ -215,6 +215,11 @@ where
         .config()
         .handshake_timeout
         .unwrap_or(Duration::from_secs(15));
+      // One absolute deadline for the whole handshake: a per-read timeout would be
+      // re-armed by every byte a slow (or malicious) peer drips.
+      let hs_deadline = self
+        .handshake_deadline
+        .unwrap_or_else(|| TokioInstant::now() + hs_timeout);
 
       'handshake: loop {
         if self.zmtp_engine.phase == ZmtpPhase::Data
@@ -224,8 +229,8 @@ where
           break 'handshake;
         }
 
-        let read_result = tokio::time::timeout(
-          hs_timeout,
+        let read_result = tokio::time::timeout_at(
+          hs_deadline,
           hs_read_half.read_buf(&mut self.handshake_read_buf),
         )
         .await;
